@@ -6,7 +6,10 @@ Extracted from the AST of the non-test sources of `bert_e` on every run:
     of the function (a flag may be spliced in through `%s` or `+`);
   * the guard at the head of `Branch.remove` (prefixes that may be deleted without `force`);
   * every call of a branch's `remove(...)` with the source text of its `force` / `do_push` arguments;
-  * the ordered remote-mutating calls of the `delete_branch` job handler.
+  * the ordered remote-mutating calls of the `delete_branch` job handler, each with the tests of the `if`s that
+    enclose it; every assignment of its flag `archived` (set when the archive tag is already on the tip of the branch:
+    the tag is not pushed again) and whether that assignment is reached only through the comparison of the tagged
+    commit with the tip of the branch.
 """
 import ast
 import os
@@ -160,14 +163,140 @@ def _leading_const(node):
     return None
 
 
+GUARD_SEP = ' && '
+
+
+def _guards(fn):
+    """id(node) -> textual guard of a node of `fn`: the tests of ALL the `if` statements (and conditional
+    expressions) that enclose it, outermost first, joined by ' && ' (`not (test)` for an `else` part); '' when no
+    `if` encloses it. Loops, `try` and `with` blocks add nothing (they are not what decides `archived`)."""
+    out = {}
+
+    def walk(node, guard):
+        out[id(node)] = guard
+        if isinstance(node, (ast.FunctionDef, ast.AsyncFunctionDef, ast.ClassDef, ast.Lambda)) and node is not fn:
+            return
+        if isinstance(node, (ast.If, ast.IfExp)):
+            t = ast.unparse(node.test)
+            walk(node.test, guard)
+            body = node.body if isinstance(node.body, list) else [node.body]
+            orelse = node.orelse if isinstance(node.orelse, list) else [node.orelse]
+            for ch in body:
+                walk(ch, (guard + GUARD_SEP if guard else '') + t)
+            for ch in orelse:
+                walk(ch, (guard + GUARD_SEP if guard else '') + 'not (%s)' % t)
+            return
+        for ch in ast.iter_child_nodes(node):
+            walk(ch, guard)
+    walk(fn, '')
+    return out
+
+
+def _stores(fn, name):
+    """every node that binds the local `name` in `fn`: (statement-or-node, value text or '?')"""
+    res = []
+    for n in _own_nodes(fn):
+        if isinstance(n, ast.Assign) and len(n.targets) == 1 and isinstance(n.targets[0], ast.Name) \
+                and n.targets[0].id == name:
+            res.append((n, ast.unparse(n.value)))
+        elif isinstance(n, ast.Name) and n.id == name and isinstance(n.ctx, (ast.Store, ast.Del)):
+            res.append((n, '?'))
+        elif isinstance(n, (ast.Global, ast.Nonlocal)) and name in n.names:
+            res.append((n, '?'))
+        elif isinstance(n, ast.arg) and n.arg == name:
+            res.append((n, '?'))
+    # a plain assignment was recorded twice (the statement and its target Name): keep the statement
+    plain = {id(n.targets[0]) for n, _ in res if isinstance(n, ast.Assign)}
+    res = [(n, v) for n, v in res if id(n) not in plain]
+    res.sort(key=lambda x: (x[0].lineno, x[0].col_offset))
+    return res
+
+
+def _fmt_arg(node):
+    """`'tmpl %s' % x` -> source text of x (None when the command is not of that shape)"""
+    if isinstance(node, ast.BinOp) and isinstance(node.op, ast.Mod) and isinstance(node.left, ast.Constant):
+        return ast.unparse(node.right)
+    return None
+
+
+def _cmd_calls(fn, head):
+    """calls `<x>.cmd('<head> ...' % arg)` of fn: (call, text of arg)"""
+    res = []
+    for n in _own_nodes(fn):
+        if isinstance(n, ast.Call) and getattr(n.func, 'attr', '') == 'cmd' and n.args:
+            lead = _leading_const(n.args[0])
+            if lead is not None and lead.split()[:len(head)] == head:
+                res.append((n, _fmt_arg(n.args[0])))
+    return res
+
+
+def _resume_checks_tip(fn, checkout_target):
+    """`archived = True` (any value but False) is reached only through the comparison of the tagged commit with the
+    tip of the branch being deleted: in the body of the `if` that holds the assignment, BEFORE it,
+        X = <repo>.cmd('git rev-list -n 1 %s' % T)[.rstrip()/.strip()]      T = the argument of `git tag %s` and of
+                                                                           `git push origin %s`
+        if X != <checkout_target>.get_latest_commit():  ...; raise ...      (either order of the operands; no `else`)
+    Returns (bool, description)."""
+    stores = [(n, v) for n, v in _stores(fn, 'archived') if v != 'False']
+    if not stores:
+        return False, 'no assignment of a value other than False'
+    tag_args = {a for c, a in _cmd_calls(fn, ['git', 'tag']) if len(_leading_const(c.args[0]).split()) > 2} \
+        | {a for _, a in _cmd_calls(fn, ['git', 'push'])}
+    if len(tag_args) != 1 or None in tag_args:
+        return False, '`git tag` / `git push` do not format one and the same name'
+    tag_arg = next(iter(tag_args))
+    parents = {}
+    for n in _own_nodes(fn):
+        for field in ('body', 'orelse', 'finalbody'):
+            block = getattr(n, field, None)
+            if isinstance(block, list):
+                for ch in block:
+                    parents[id(ch)] = (n, field)
+    for st, _ in stores:
+        if not isinstance(st, ast.Assign) or id(st) not in parents:
+            return False, 'line %d: not a plain statement of an `if` body' % st.lineno
+        holder, field = parents[id(st)]
+        if not isinstance(holder, ast.If) or field != 'body':
+            return False, 'line %d: not in the body of an `if`' % st.lineno
+        before = holder.body[:holder.body.index(st)]
+        tagged = set()
+        ok = False
+        for b in before:
+            if isinstance(b, ast.Assign) and len(b.targets) == 1 and isinstance(b.targets[0], ast.Name):
+                v = b.value
+                while isinstance(v, ast.Call) and isinstance(v.func, ast.Attribute) and v.func.attr in ('rstrip', 'strip') \
+                        and not v.args:
+                    v = v.func.value
+                if isinstance(v, ast.Call) and getattr(v.func, 'attr', '') == 'cmd' and v.args \
+                        and (_leading_const(v.args[0]) or '').split() == ['git', 'rev-list', '-n', '1', '%s'] \
+                        and _fmt_arg(v.args[0]) == tag_arg:
+                    tagged.add(b.targets[0].id)
+                else:
+                    tagged.discard(b.targets[0].id)
+            elif isinstance(b, ast.If) and isinstance(b.test, ast.Compare) and len(b.test.ops) == 1 \
+                    and isinstance(b.test.ops[0], ast.NotEq) and not b.orelse and b.body \
+                    and isinstance(b.body[-1], ast.Raise):
+                sides = [ast.unparse(b.test.left), ast.unparse(b.test.comparators[0])]
+                tip = '%s.get_latest_commit()' % checkout_target
+                if tip in sides and any(x in tagged for x in sides if x != tip):
+                    ok = True
+            # statements after the check do not matter: they run only when the two commits are equal
+        if not ok:
+            return False, 'line %d: no `if <rev-list of the tag> != %s.get_latest_commit(): raise` before it' \
+                % (st.lineno, checkout_target)
+    return True, 'tag name %s' % tag_arg
+
+
 def _delete_branch_calls(fn):
-    """ordered (kind, target, forced) of what the handler does to the remote (and the checkouts that decide
-    what a tag points to); plus: does a failing tag push abort the job?"""
+    """ordered (kind, target, forced, guard) of what the handler does to the remote (and the checkouts that decide
+    what a tag points to); does a failing tag push abort the job?; how the flag `archived` is assigned."""
     calls = sorted((n for n in _own_nodes(fn) if isinstance(n, ast.Call)),
                    key=lambda n: (n.lineno, n.col_offset))
+    guards = _guards(fn)
     out = []
     for c in calls:
         f = c.func
+        g = guards.get(id(c), '?')
         name = f.attr if isinstance(f, ast.Attribute) else getattr(f, 'id', '')
         if name == 'do_delete':
             forced = 'False'
@@ -176,20 +305,28 @@ def _delete_branch_calls(fn):
             for k in c.keywords:
                 if k.arg == 'force':
                     forced = ast.unparse(k.value)
-            out.append(('delete', ast.unparse(c.args[0]) if c.args else '', forced != 'False'))
+            out.append(('delete', ast.unparse(c.args[0]) if c.args else '', forced != 'False', g))
         elif name == 'checkout' and isinstance(f, ast.Attribute):
-            out.append(('checkout', ast.unparse(f.value), False))
+            out.append(('checkout', ast.unparse(f.value), False, g))
         elif name == 'cmd' and c.args:
             lead = _leading_const(c.args[0])
             if lead is None:
-                out.append(('cmd-unknown', ast.unparse(c.args[0])[:60], False))
+                out.append(('cmd-unknown', ast.unparse(c.args[0])[:60], False, g))
             elif lead.split()[:2] == ['git', 'tag'] and len(lead.split()) > 2:
-                out.append(('tag', lead.strip(), False))
+                out.append(('tag', lead.strip(), False, g))
             elif lead.split()[:2] == ['git', 'push']:
+                # forced: a forcing flag, a `+refspec`, or a refspec with a colon (`:branch` deletes, `a:b` rewrites)
                 out.append(('push', lead.strip(), any(t in FORCE_FLAGS or t.startswith('+')
-                                                      for t in _flag_tokens([lead]))))
+                                                      for t in _flag_tokens([lead]))
+                            or any(':' in t for t in lead.split()[2:]), g))
+            elif lead.split()[:2] in (['git', 'update-ref'], ['git', 'send-pack']) or \
+                    lead.split()[:3] == ['git', 'branch', '-D']:
+                out.append(('other', lead.strip()[:60], False, g))
         elif name in ('push', 'push_all', 'remove', 'reset') and not (name == 'remove' and not _is_branch_remove(c)):
-            out.append(('other', ast.unparse(c)[:60], False))
+            out.append(('other', ast.unparse(c)[:60], False, g))
+    assigns = [(v, guards.get(id(n), '?')) for n, v in _stores(fn, 'archived')]
+    targets = [t for k, t, _, _ in out if k == 'checkout']
+    resume, resume_why = _resume_checks_tip(fn, targets[0] if targets else '?')
     # failure of the tag push: the `git push` call sits in a `try` whose every handler ends with `raise`,
     # or in no `try` at all (CommandError propagates)
     aborts = True
@@ -205,7 +342,7 @@ def _delete_branch_calls(fn):
                 if n.finalbody and any(isinstance(x, (ast.Return, ast.Continue, ast.Break))
                                        for b in n.finalbody for x in ast.walk(b)):
                     aborts = False
-    return out, aborts
+    return out, aborts, assigns, resume, resume_why
 
 
 FORCE_FLAGS = ['--force', '-f', '--force-with-lease', '--force-if-includes', '--mirror', '--delete', '-d']
@@ -215,7 +352,7 @@ def table_gitflags():
     push_fns = []
     remove_calls = []
     guard, prefixes = None, []
-    delete_calls, tag_abort = None, True
+    delete_calls, tag_abort, assigns, resume, resume_why = None, True, [], False, ''
     branch_d = []
     for rel, tree in _sources():
         for qn, fn in _functions(tree):
@@ -235,7 +372,7 @@ def table_gitflags():
             if rel == 'bert_e/lib/git.py' and qn == 'Branch.remove':
                 guard, prefixes = _remove_guard(fn)
             if rel == 'bert_e/jobs/delete_branch.py' and qn == 'delete_branch':
-                delete_calls, tag_abort = _delete_branch_calls(fn)
+                delete_calls, tag_abort, assigns, resume, resume_why = _delete_branch_calls(fn)
     if guard is None:
         raise ExtractError('lib/git.py: Branch.remove not found')
     if delete_calls is None:
@@ -268,18 +405,29 @@ def table_gitflags():
     src += 'def localDeletes : List (String × String × String) := [%s]\n\n' % ', '.join(
         '(%s, %s, %s)' % (lstr(a), lstr(b), lstr(c)) for a, b, c in branch_d)
     src += ('structure Call where\n  kind : String\n  target : String\n  forced : Bool\n'
-            '  deriving Repr, DecidableEq\n\n')
+            '  /-- the tests of the enclosing `if`s, outermost first, joined by " && " ("" = unconditional) -/\n'
+            '  guard : String\n  deriving Repr, DecidableEq\n\n')
     src += ('/-- `delete_branch`: its remote-mutating calls and the checkouts, in source order\n'
-            '    (delete = `do_delete(target, force=forced)`, tag = `git tag`, push = `git push`) -/\n')
+            '    (delete = `do_delete(target, force=forced)`, tag = `git tag`, push = `git push`; a push is `forced`\n'
+            '    when it carries a forcing flag, a `+refspec` or a refspec with a colon) -/\n')
     src += 'def deleteBranchCalls : List Call := ' + llist(
-        '⟨%s, %s, %s⟩' % (lstr(k), lstr(t), lbool(fo)) for k, t, fo in delete_calls) + '\n\n'
+        '⟨%s, %s, %s, %s⟩' % (lstr(k), lstr(t), lbool(fo), lstr(g)) for k, t, fo, g in delete_calls) + '\n\n'
+    src += ('/-- every binding of the local `archived` in `delete_branch`, in source order: (source text of the value —\n'
+            '    "?" when it is not a plain `archived = <value>` —, guard as in `Call.guard`) -/\n')
+    src += 'def archivedAssignments : List (String × String) := [%s]\n\n' % ', '.join(
+        '(%s, %s)' % (lstr(v), lstr(g)) for v, g in assigns)
+    src += ('/-- every `archived = <not False>` sits in the body of an `if`, after\n'
+            '    `X = repo.cmd(\'git rev-list -n 1 %%s\' %% <the name given to git tag and git push>)` and\n'
+            '    `if X != <branch>.get_latest_commit(): …; raise …` (%s) -/\n' % resume_why.replace('-/', '- /'))
+    src += 'def resumeChecksTip : Bool := %s\n\n' % lbool(resume)
     src += '/-- a failing tag push ends the job (no handler swallows the error) -/\n'
     src += 'def tagPushFailureAborts : Bool := %s\n' % lbool(tag_abort)
     src += footer('GitFlags')
     return 'GitFlags', src, {'pushFns': [(f, q, t, fl) for f, q, t, fl, _ in push_fns],
                              'removablePrefixes': prefixes, 'removeGuarded': guard,
                              'removeCalls': len(remove_calls),
-                             'deleteBranchCalls': [(k, t, fo) for k, t, fo in delete_calls]}
+                             'deleteBranchCalls': [(k, t, fo, g) for k, t, fo, g in delete_calls],
+                             'archivedAssignments': assigns, 'resumeChecksTip': resume}
 
 
 TABLES = {'GitFlags': table_gitflags}
